@@ -1,6 +1,7 @@
 #!/bin/bash
 # applies every seeded change to /repo in turn, runs the quick check of its property (plus the extra properties
 # named in tools/seeded_extra.txt), restores /repo, and writes seeded/RESULTS.md
+# SEEDED_DONE=<file>: lines of an interrupted run (same machinery for those properties) are taken over, not re-run
 cd /verif
 {
 echo "# Seeded changes vs quick checks (current machinery)"
@@ -10,6 +11,7 @@ echo
 echo '```'
 for d in seeded/C*/; do
   id=$(basename $d); prop=${id%%-*}
+  if [ -n "${SEEDED_DONE:-}" ] && grep -q "^$id: .*\(DETECTED\|exit0\)" "$SEEDED_DONE"; then grep "^$id: " "$SEEDED_DONE" | head -1; continue; fi
   extra=$(grep "^$id " tools/seeded_extra.txt 2>/dev/null | cut -d' ' -f2-)
   cd /repo; if [ -n "$(git status --porcelain -- src)" ]; then echo "$id: /repo dirty"; cd /verif; continue; fi
   if ! git apply /verif/$d/patch.diff 2>/dev/null; then echo "$id: patch does not apply"; cd /verif; continue; fi
